@@ -297,6 +297,32 @@ theorem rless_hidden_kept :
     afterLoad [⟨0, false, [⟨0, 0, ['a'], false, false⟩]⟩, ⟨0, true, [⟨0, 0, ['b'], false, false⟩]⟩]
       (fun s' => rowVisible s' 1 && !rowVisible s' 2) = true := by decide
 
+/-- from "caching succeeds, keeps the invariant, makes references explicit and preserves the
+grid" to what the readers show before and after caching -/
+theorem load_obs (s : Sheet) (h : WF s) (hb : RowAttrsOK s) (hc : Consistent 0 s) (hg : InGrid 0 s)
+    (hl : ∃ s', load s = .ok s' ∧ WF s' ∧ Explicit s' ∧ ∀ c k, value s' c k = value s c k) :
+    ∃ s', load s = .ok s' ∧ WF s' ∧ Explicit s' ∧
+      (∀ c r, getCellValue s' c r = value s c r) ∧
+      (∀ c r, 1 ≤ c → 1 ≤ r → cellOf (getRows s') c r = cellOf (getRows s) c r) ∧
+      (∀ c r, 1 ≤ c → 1 ≤ r → cellOfCols (getCols s') c r = cellOfCols (getCols s) c r) ∧
+      (∀ needle, needle ≠ [] → ∃ l l', searchSheet s needle = .ok l ∧
+        searchSheet s' needle = .ok l' ∧ ∀ c r, (c, r) ∈ l' ↔ (c, r) ∈ l) := by
+  obtain ⟨s', hl, hwf, hex, hv⟩ := hl
+  have hb' := rowAttrsOK_of_explicit s' hex
+  have hc' := consistent_of_explicit s' 0 hex
+  have hg' := inGrid_of_explicit s' 0 hex
+  refine ⟨s', hl, hwf, hex, fun c r => ?_, fun c r h1 h2 => ?_, fun c r h1 h2 => ?_,
+    fun needle hne => ?_⟩
+  · rw [getCellValue_agrees s' hwf hex c r, hv]
+  · rw [readers_agree s' hwf hb' c r h1 h2, readers_agree s h hb c r h1 h2, hv]
+  · rw [getCols_agrees s' hwf hc' c r h1 h2, getCols_agrees s h hc c r h1 h2, hv]
+  · refine ⟨hits needle 0 s, hits needle 0 s', searchSheet_spec s h hg needle,
+      searchSheet_spec s' hwf hg' needle, fun c r => ?_⟩
+    rw [mem_hits_iff needle hne s' 0 c r hwf, mem_hits_iff needle hne s 0 c r h]
+    have := hv c r
+    unfold value at this
+    rw [this]
+
 /-- clause "read-only calls … leave the result of every later read unchanged", for the state
 change every first getter performs: caching a worksheet opened from a file (`checkSheet`,
 `checkSheetR0`, `checkRow` as the code does them now, with the greatest-column sizing and
@@ -316,22 +342,25 @@ theorem load_pure_partial (s : Sheet) (h : WF s) (ha : AllR s) (hb : RowAttrsOK 
       (∀ c r, 1 ≤ c → 1 ≤ r → cellOf (getRows s') c r = cellOf (getRows s) c r) ∧
       (∀ c r, 1 ≤ c → 1 ≤ r → cellOfCols (getCols s') c r = cellOfCols (getCols s) c r) ∧
       (∀ needle, needle ≠ [] → ∃ l l', searchSheet s needle = .ok l ∧
-        searchSheet s' needle = .ok l' ∧ ∀ c r, (c, r) ∈ l' ↔ (c, r) ∈ l) := by
-  obtain ⟨s', hl, hwf, hex, hv⟩ := load_allR s h ha hb hc hg
-  have hb' := rowAttrsOK_of_explicit s' hex
-  have hc' := consistent_of_explicit s' 0 hex
-  have hg' := inGrid_of_explicit s' 0 hex
-  refine ⟨s', hl, hwf, hex, fun c r => ?_, fun c r h1 h2 => ?_, fun c r h1 h2 => ?_,
-    fun needle hne => ?_⟩
-  · rw [getCellValue_agrees s' hwf hex c r, hv]
-  · rw [readers_agree s' hwf hb' c r h1 h2, readers_agree s h hb c r h1 h2, hv]
-  · rw [getCols_agrees s' hwf hc' c r h1 h2, getCols_agrees s h hc c r h1 h2, hv]
-  · refine ⟨hits needle 0 s, hits needle 0 s', searchSheet_spec s h hg needle,
-      searchSheet_spec s' hwf hg' needle, fun c r => ?_⟩
-    rw [mem_hits_iff needle hne s' 0 c r hwf, mem_hits_iff needle hne s 0 c r h]
-    have := hv c r
-    unfold value at this
-    rw [this]
+        searchSheet s' needle = .ok l' ∧ ∀ c r, (c, r) ∈ l' ↔ (c, r) ∈ l) :=
+  load_obs s h hb hc hg (load_allR s h ha hb hc hg)
+
+/-- the same clause for the other common shape of "files with missing `r` attributes": a
+worksheet written without **any** `r` attribute, on rows and on cells (rows and cells are
+numbered by their position). The invariant, the row-attribute guard and the consistency of
+references hold automatically; only "inside the grid" is assumed. `load` goes through the
+`checkSheetR0` path (`r0Rows`, `r0Cells`): it only numbers the rows, then `checkRow` gives every
+cell its reference; every reader answers as before. Sheets mixing rows with and without `r`
+remain unproved (transcript and `purity:*-after-load` oracle only). -/
+theorem load_pure_noRefs (s : Sheet) (hn : NoRefs s) (hg : InGrid 0 s) :
+    ∃ s', load s = .ok s' ∧ WF s' ∧ Explicit s' ∧
+      (∀ c r, getCellValue s' c r = value s c r) ∧
+      (∀ c r, 1 ≤ c → 1 ≤ r → cellOf (getRows s') c r = cellOf (getRows s) c r) ∧
+      (∀ c r, 1 ≤ c → 1 ≤ r → cellOfCols (getCols s') c r = cellOfCols (getCols s) c r) ∧
+      (∀ needle, needle ≠ [] → ∃ l l', searchSheet s needle = .ok l ∧
+        searchSheet s' needle = .ok l' ∧ ∀ c r, (c, r) ∈ l' ↔ (c, r) ∈ l) :=
+  load_obs s (wf_noRefs s 0 hn) (rowAttrsOK_noRefs s hn) (consistent_noRefs s 0 hn) hg
+    (load_noRefs s hn hg)
 
 /-- `load_pure_examples`: on the witness shapes of the other classes (all references
 present with gaps; no references at all) caching leaves `GetRows` unchanged. The
@@ -382,6 +411,17 @@ theorem nonvacuous_load :
   · simp [AllR]
   · simp [RowAttrsOK, Facts.TotalRows]
   · simp [Consistent, RefsOK, effRow]
+  · simp [InGrid, InGridCells, effRow, effCol, Facts.MaxColumns, Facts.TotalRows]
+
+/-- the hypotheses of `load_pure_noRefs` are satisfiable (a hidden row and an empty row included) -/
+theorem nonvacuous_noRefs :
+    let s : Sheet := [⟨0, false, [⟨0, 0, ['a'], false, false⟩, ⟨0, 0, [], false, true⟩]⟩,
+                      ⟨0, true, []⟩, ⟨0, false, [⟨0, 0, ['c'], true, false⟩]⟩]
+    NoRefs s ∧ InGrid 0 s ∧
+    afterLoad s (fun s' => s'.map (·.r) == [1, 2, 3] && !rowVisible s' 2 &&
+      getCellValue s' 1 3 == ['c']) = true := by
+  refine ⟨?_, ?_, by decide⟩
+  · simp [NoRefs, CellsNoRef]
   · simp [InGrid, InGridCells, effRow, effCol, Facts.MaxColumns, Facts.TotalRows]
 
 /-- an `Explicit` (cached-form) sheet satisfying the invariant exists -/
